@@ -215,12 +215,14 @@ func (s *server) handle(stream net.Stream, authenticated bool) {
 		if _, ok := s.contexts[context]; ok {
 			delete(s.contexts, context)
 		}
+		vhook.Emit("server", s, "ctx_del", "ep", vhook.ID(context.endpoint), "n", len(s.contexts))
 	}
 	finalize := func(e net.EndPoint) {
 		context.endpoint = e
 		e.MakeHandler(filter, consumer, closer)
 		s.contextsMutex.Lock()
 		s.contexts[context] = true
+		vhook.Emit("server", s, "ctx_add", "ep", vhook.ID(e), "n", len(s.contexts))
 		s.contextsMutex.Unlock()
 	}
 	net.EndPointFinalizer(stream, finalize)
@@ -230,9 +232,11 @@ func (s *server) run() {
 	for {
 		stream, err := s.listen.Accept()
 		if err != nil {
+			vhook.Emit("server", s, "accept_err")
 			select {
 			case <-s.closeChan:
 			default:
+				vhook.Emit("server", s, "listen_failed")
 				s.listen.Close()
 				s.stoppedWith(err)
 			}
@@ -248,6 +252,7 @@ func (s *server) stoppedWith(err error) {
 	// 2. close all connections
 	s.closeAll()
 	// 3. inform server's user
+	vhook.Emit("server", s, "stopped")
 	s.waitChan <- err
 	close(s.waitChan)
 }
@@ -257,8 +262,10 @@ func (s *server) closeAll() error {
 	var ret error
 	s.contextsMutex.Lock()
 	defer s.contextsMutex.Unlock()
+	vhook.Emit("server", s, "closeall", "n", len(s.contexts))
 	for context := range s.contexts {
 		err := context.EndPoint().Close()
+		vhook.Emit("server", s, "ctx_close", "ep", vhook.ID(context.EndPoint()))
 		if err != nil && ret == nil {
 			ret = err
 		}
@@ -273,6 +280,7 @@ func (s *server) WaitTerminate() chan error {
 
 // Terminate stops a server.
 func (s *server) Terminate() error {
+	vhook.Emit("server", s, "terminate")
 	close(s.closeChan)
 	err := s.listen.Close()
 	s.stoppedWith(err)
